@@ -6,7 +6,7 @@ use syn::Ident;
 
 use crate::ast::Fields;
 use crate::codegen::error::{ErrorCheck, ErrorDeclaration};
-use crate::codegen::{Field, FieldsGen};
+use crate::codegen::{DefaultExpression, Field, FieldsGen};
 use crate::usage::{self, IdentRefSet, IdentSet, UsesTypeParams};
 
 /// A variant of the enum which is deriving `FromMeta`.
@@ -91,6 +91,19 @@ impl ToTokens for UnitMatchArm<'_> {
             let ty_ident = val.ty_ident;
             let variant_ident = val.variant_ident;
             let unsupported_format = unsupported_format_error();
+
+            // As for a field of a struct, a field that has a default of its own is given that
+            // default when no value was written, and its type is not asked for one (a type
+            // read by a `with` function need not implement `FromMeta` then).
+            if let Some(
+                default @ (DefaultExpression::Explicit(_) | DefaultExpression::Trait { .. }),
+            ) = field.default_expression.as_ref().filter(|_| !field.skip)
+            {
+                tokens.append_all(quote! {
+                    #name_in_attr => ::darling::export::Ok(#ty_ident::#variant_ident(#default)),
+                });
+                return;
+            }
 
             tokens.append_all(quote!{
                 #name_in_attr => {
